@@ -67,12 +67,16 @@ pub fn run_c05(outdir: &str, seed: u64, thorough: bool) -> serde_json::Value {
     let mut rng = Rng::new(seed ^ 0xC05);
     let mut st = Stats::default();
     let n = if thorough { 4000 } else { 160 };
+    let mut cases: Vec<String> = vec![]; let mut cj: Vec<serde_json::Value> = vec![];
     let mut made = 0; let mut attempts = 0;
     let targeted: Vec<&str> = vec![
         "SELECT o.id AS i, u.age AS a FROM orders AS o FULL JOIN users AS u ON o.user_id = u.id",
         "SELECT o.id AS i, u.age AS a FROM orders AS o RIGHT JOIN users AS u ON o.user_id = u.id",
         "SELECT o.id AS i, u.age AS a FROM orders AS o LEFT JOIN users AS u ON o.user_id = u.id",
         "SELECT i.price AS p, o.amount AS a FROM items AS i FULL JOIN orders AS o ON i.order_id = o.id",
+        "SELECT o.id AS i, c.city AS c FROM orders AS o RIGHT JOIN cities AS c ON o.id = c.pop",
+        "SELECT t.amount AS a FROM orders AS t ORDER BY t.amount DESC LIMIT 3",
+        "SELECT x.a AS a, u.age AS g FROM (SELECT t.amount AS a, t.user_id AS uid FROM orders AS t ORDER BY t.amount DESC LIMIT 3) AS x JOIN users AS u ON x.uid = u.id",
     ];
     while made < n && attempts < n * 30 {
         attempts += 1;
@@ -93,6 +97,8 @@ pub fn run_c05(outdir: &str, seed: u64, thorough: bool) -> serde_json::Value {
         made += 1;
         let shape = format!("{}{}", shape_class(&rel), if public_side_preserved(&rel, &w) { "-public-side-preserved" } else if tracked_both_sides(&rel, &w) { "-both-tracked" } else { "" });
         let shape = shape.as_str();
+        let skeleton = track_skeleton(rw.relation());
+        let before = st.violations_seen();
         for _ in 0..(if thorough { 3 } else { 2 }) {
             let data = gen_dp_data(&mut r, &w.specs, 10, 5);
             let db = Db::new(&w.specs, &data);
@@ -122,11 +128,59 @@ pub fn run_c05(outdir: &str, seed: u64, thorough: bool) -> serde_json::Value {
                 st.bump("unit_comparisons");
             }
         }
-        if made <= 2 { st.sample(json!({"query":sql,"strategy":if hard {"Hard"} else {"Soft"},"shape":shape})); }
+        let listed = shape.contains("public-side-preserved") || shape.starts_with("limit");
+        st.bump(&format!("skeleton_{}", if skeleton.contains("SBad") { "outside_operators" } else if skeleton.contains("SMap true") { "limit" } else if skeleton.contains("SJoinPub true") { "public_side_kept" } else if skeleton.contains("SJoin false") { "join_without_unit_equality" } else if skeleton.contains("SReduce false") { "reduce_without_unit" } else { "inside_fragment" }));
+        cases.push(format!("({}, {}, {})", skeleton, coq_bool(st.violations_seen() > before), coq_bool(listed)));
+        cj.push(json!({"query":sql,"strategy":if hard {"Hard"} else {"Soft"},"skeleton":skeleton,"class":shape}));
+        if made <= 2 { st.sample(json!({"query":sql,"strategy":if hard {"Hard"} else {"Soft"},"shape":shape,"skeleton":skeleton})); }
     }
+    let header = "From Coq Require Import List Bool. Import ListNotations.\nFrom QV Require Import Rel.Track Corr.Lib Corr.C05.";
+    let f = write_shards(outdir, "c05_skeleton", header, "c05_case", "check", &cases, 400);
+    std::fs::write(format!("{}/c05_skeleton.json", outdir), serde_json::to_string(&cj).unwrap()).unwrap();
     let mut out = st.to_json("generated queries accepted by rewrite_as_privacy_unit_preserving (both strategies) whose result is privacy-unit tracked, executed on SQLite over generated databases with 1-5 units owning several rows along the two-step foreign-key path; for every unit: rows attributed to it vs the rewriting run on the database restricted to that unit; distinct by (query, database)");
-    out["shards"] = json!({});
+    out["shards"] = json!({"c05_skeleton": f});
     out
+}
+
+/// the skeleton of a privacy-unit preserving relation, in the syntax of QV/Rel/Track.v (skel)
+pub fn track_skeleton(rel: &Relation) -> String {
+    use qrlew::expr::{Expr, function::Function};
+    use qrlew::relation::{JoinOperator as J, SetOperator};
+    fn tracked(rel: &Relation) -> bool { rel.schema().iter().any(|f| f.name().contains("_PRIVACY_UNIT_")) }
+    fn is_pu_col(e: &Expr) -> bool { match e { Expr::Column(c) => c.last().map(|n| n.contains("_PRIVACY_UNIT_") && !n.contains("WEIGHT")).unwrap_or(false), _ => false } }
+    fn passes_unit(e: &Expr) -> bool { match e { Expr::Function(f) if f.function() == Function::Coalesce => f.arguments().iter().all(|a| passes_unit(a)), e => is_pu_col(e) } }
+    fn equates_units(e: &Expr) -> bool { match e {
+        Expr::Function(f) if f.function() == Function::And => f.arguments().iter().any(|a| equates_units(a)),
+        Expr::Function(f) if f.function() == Function::Eq => { let a = f.arguments(); a.len() == 2 && is_pu_col(&a[0]) && is_pu_col(&a[1]) }
+        _ => false } }
+    fn b(x: bool) -> &'static str { if x { "true" } else { "false" } }
+    fn sk(rel: &Relation) -> String {
+        match rel {
+            Relation::Map(m) => {
+                if !tracked(m.input()) { return "SSrc".into(); }
+                let ok = m.schema().iter().zip(m.projection().iter()).filter(|(f, _)| f.name() == "_PRIVACY_UNIT_").all(|(_, e)| passes_unit(e));
+                if !ok { return "SBad".into(); }
+                let inner = format!("(SMap {} {})", b(m.limit().is_some() || m.offset().is_some()), sk(m.input()));
+                if m.filter().is_some() { format!("(SFilter {})", inner) } else { inner }
+            }
+            Relation::Reduce(r) => { if !tracked(r.input()) { return "SBad".into(); }
+                format!("(SReduce {} {})", b(r.group_by().iter().any(|c| c.last().map(|n| n == "_PRIVACY_UNIT_").unwrap_or(false))), sk(r.input())) }
+            Relation::Join(j) => {
+                let (tl, tr) = (tracked(j.left()), tracked(j.right()));
+                let cond = match j.operator() { J::Inner(e) | J::LeftOuter(e) | J::RightOuter(e) | J::FullOuter(e) => Some(e.clone()), J::Cross => None };
+                match (tl, tr) {
+                    (true, true) => format!("(SJoin {} {} {})", b(cond.map(|e| equates_units(&e)).unwrap_or(false)), sk(j.left()), sk(j.right())),
+                    (true, false) => format!("(SJoinPub {} {})", b(matches!(j.operator(), J::RightOuter(_) | J::FullOuter(_))), sk(j.left())),
+                    (false, true) => format!("(SJoinPub {} {})", b(matches!(j.operator(), J::LeftOuter(_) | J::FullOuter(_))), sk(j.right())),
+                    _ => "SBad".into(),
+                }
+            }
+            Relation::Set(s) => { if !(tracked(s.left()) && tracked(s.right())) { return "SBad".into(); }
+                match s.operator() { SetOperator::Union => format!("(SUnion {} {})", sk(s.left()), sk(s.right())), _ => format!("(SSetOp {} {})", sk(s.left()), sk(s.right())) } }
+            _ => "SBad".into(),
+        }
+    }
+    sk(rel)
 }
 
 /// some outer join has protected tables below both of its inputs
